@@ -43,7 +43,8 @@ def build_set(ctx, names):
 
 MATRIX = ["gcc-O0", "gcc-O1", "gcc-O2", "gcc-O3", "gcc-Os", "clang-O0", "clang-O1", "clang-O2", "clang-O3", "clang-Os"]
 # code-generation variants beyond the optimisation level: wide vector units, the other signedness of plain char
-MATRIX_X = ["gcc-O3+march=native", "clang-O3+march=native", "gcc-O2+funsigned-char", "clang-O2+funsigned-char", "gcc-O2+fwrapv+fno-strict-aliasing"]
+MATRIX_X = ["gcc-O3+march=native", "clang-O3+march=native", "gcc-O2+funsigned-char", "clang-O2+funsigned-char", "gcc-O2+fwrapv+fno-strict-aliasing",
+            "gcc-O2+std=c99+w", "clang-O2+std=c99+w"]        # strict ISO C language mode (CMAKE_C_EXTENSIONS=OFF)
 
 
 def batch_jobs(ctx, exe, tag, args, nb):
